@@ -9,7 +9,8 @@ tm = KaniUnit("c10_tm", CORE, modules=[dict(file=TM, src="c10_termination.rs")],
     H("c10_runtime_limit", "complete", "QueryRuntimeLimit, all frequencies and iterations, symbolic clock (u8 frequency, u16 iteration/seconds): no panic incl. frequency 0; unscheduled iteration never stops; scheduled => stop iff elapsed > limit", timeout=120),
     H("c10_combined_one", "bounded", "Combined{Iterations}: same answer as its member", bound="one leaf member, u8 values", timeout=100),
 ])
-UNITS = [tm]
+al = VerusUnit('al_astar', 'al_astar', rlimit=60)
+UNITS = [tm, al]
 EXPLANATION = "termination predicate and its error discipline under contract on the real code (Kani, complete over the integer domains); the search loop's use of it is carried by the Verus unit AL"
 NOT_DECIDED = "wall-clock kind inside a running search (clock assumed); limits inside the sub-searches of the k-shortest-path drivers"
 ASSUMPTIONS = ["Instant::now replaced by a symbolic clock (stub)", "alloc::fmt::format stubbed: error text is not checked, only the error variant"]
